@@ -27,7 +27,8 @@ ASSUMPTIONS = ["json round-trips JSON values unchanged; dict keys stay distinct"
 
 SHAPES = [
     ("epm", [[1, 1], [0, 0]], False, Q), ("jsonld", [[1, 1], [0, 0]], False, Q), ("tsv", [[1, 0], [0, 0]], False, Q),
-    ("shacl", [[1, 0], [0, 0]], False, Q, dict(budget=900, shard=5)), ("shacl", [[1, 0], [1, 0], [0, 0]], False, T, dict(budget=1800, shard=6)),
+    ("shacl", [[1, 0], [0, 0]], False, Q, dict(budget=900, shard=5)),
+    ("epm_merged", [[1, 1]], False, Q, dict(budget=600)), ("shacl", [[1, 0], [1, 0], [0, 0]], False, T, dict(budget=1800, shard=6)),
     ("epm", [[2, 1], [0, 2]], False, T, dict(budget=1800, shard=6)), ("epm", [[0, 0]] * 3, False, T, dict(budget=1800, shard=6)),
     ("jsonld", [[2, 0], [1, 1]], False, T, dict(budget=1800, shard=6)), ("tsv", [[0, 0]] * 3, False, T, dict(budget=1200, shard=5)),
 ]
@@ -36,7 +37,7 @@ PRETTY_SAMPLES = True   # path witnesses replayed through real files should be p
 
 
 def jobs(tier):
-    return shape_jobs(SHAPES, tier, {"epm": ["ok"], "jsonld": ["ok"], "tsv": ["ok"], "shacl": ["ok"]})
+    return shape_jobs(SHAPES, tier, {"epm": ["ok"], "jsonld": ["ok"], "tsv": ["ok"], "shacl": ["ok"], "epm_merged": ["ok"]})
 
 
 def location(eng, name):
@@ -75,6 +76,29 @@ def build(job):
             eng.expect(sym_eq(x.uri_prefix, r.uri_prefix) and as_set_eq(x.prefix_synonyms, r.psyn) and as_set_eq(x.uri_prefix_synonyms, r.usyn)
                        and len(x.prefix_synonyms) == len(r.psyn) and len(x.uri_prefix_synonyms) == len(r.usyn) and same_pat,
                        "a record of the reloaded extended prefix map differs (URI prefix, synonym sets or pattern)")
+        return "ok"
+
+    def epm_merged(eng):
+        """Records that acquired their synonyms by merging (not at construction) must be written completely, too."""
+        api = eng.mods.api
+        (r,) = mk_recs(eng, params["shape"])
+        assume_strict(eng, [r])
+        conv = api.Converter.from_prefix_map(eng.mkdict([(r.prefix, r.uri_prefix)]))
+        conv.add_prefix(r.psyn[0], r.uri_prefix, merge=True)
+        conv.add_prefix(r.prefix, r.usyn[0], merge=True)
+        other = api.Converter.from_prefix_map(eng.mkdict([(eng.var("op"), eng.var("ou"))]))
+        try:
+            conv = api.chain([conv, other])
+        except ValueError:
+            pass
+        path = location(eng, "epm.json")
+        api.write_extended_prefix_map(conv, path)
+        back = api.load_extended_prefix_map(path)
+        want = sorted([(x.prefix, x.uri_prefix, list(x.prefix_synonyms), list(x.uri_prefix_synonyms)) for x in conv.records], key=lambda t: t[0])
+        got = sorted([(x.prefix, x.uri_prefix, list(x.prefix_synonyms), list(x.uri_prefix_synonyms)) for x in back.records], key=lambda t: t[0])
+        eng.expect(len(want) == len(got) and all(sym_eq(a[0], b[0]) and sym_eq(a[1], b[1]) and as_set_eq(a[2], b[2]) and as_set_eq(a[3], b[3])
+                                                 and len(a[2]) == len(b[2]) and len(a[3]) == len(b[3]) for a, b in zip(want, got)),
+                   "an extended prefix map written from records that were merged in place does not read back to the same records")
         return "ok"
 
     def jsonld(eng):
@@ -188,4 +212,4 @@ def build(job):
         eng.expect(same, "write_shacl does not produce one well-formed sh:declare entry per record (and synonym) in record order")
         return "ok"
 
-    return dict(epm=epm, jsonld=jsonld, tsv=tsv, shacl=shacl)[fn]
+    return dict(epm=epm, jsonld=jsonld, tsv=tsv, shacl=shacl, epm_merged=epm_merged)[fn]
